@@ -83,7 +83,10 @@ class Outcome:
 
 def run_stage(stage, tier, seed, out, replay_scenarios=None):
     if stage.mc and replay_scenarios is None:
-        r = h.model_check(stage.mc[0], stage.mc[1], workers=stage.mc_workers, coverage=False)
+        r = h.model_check(stage.mc[0], stage.mc[1], workers=stage.mc_workers, coverage=(tier == 'thorough'))
+        if r.coverage:
+            never = sorted(a for a, (g, d) in r.coverage.items() if g == 0 and not a.startswith('Dev_'))
+            out.notes.append('%s: spec actions taken in %s: %d of %d%s' % (stage.name, stage.mc[1], len(r.coverage) - len(never), len(r.coverage), (' (never taken in this configuration: %s)' % ', '.join(never)) if never else ''))
         if r.violated:
             raise h.Machinery('the MODEL %s/%s violates %s - the specification (intended design) is broken:\n%s'
                               % (stage.mc[0], stage.mc[1], r.violated, r.stdout[-3000:]))
